@@ -1,0 +1,39 @@
+//go:build verif
+
+package coordinate
+
+import "math/rand"
+
+// Accessors used only by the verification harness (/verif). Compiled only with
+// -tags verif. Add-only: nothing here changes the behaviour of existing code.
+
+// VerifSetRand installs the random source that unitVectorAt draws from (the
+// unexported Config.rand field, nil in DefaultConfig).
+func (c *Config) VerifSetRand(r *rand.Rand) { c.rand = r }
+
+// VerifConfig returns the client's configuration.
+func (c *Client) VerifConfig() *Config { return c.config }
+
+// VerifClientState is a copy of the client's unexported bookkeeping.
+type VerifClientState struct {
+	AdjustmentIndex   uint
+	AdjustmentSamples []float64
+	LatencySamples    map[string][]float64
+	Resets            int
+}
+
+// VerifState returns a deep copy of the client's unexported bookkeeping.
+func (c *Client) VerifState() VerifClientState {
+	c.mutex.RLock()
+	defer c.mutex.RUnlock()
+	st := VerifClientState{
+		AdjustmentIndex:   c.adjustmentIndex,
+		AdjustmentSamples: append([]float64{}, c.adjustmentSamples...),
+		LatencySamples:    map[string][]float64{},
+		Resets:            c.stats.Resets,
+	}
+	for k, v := range c.latencyFilterSamples {
+		st.LatencySamples[k] = append([]float64{}, v...)
+	}
+	return st
+}
